@@ -113,11 +113,13 @@ class NTTWorld:
         return r
 
     def snapshot(s):
-        return (dict(s.I.mem), list(s.I.heap), [(r, r.freed) for r in s.I.heap], dict(s.I.gmp))
+        return (dict(s.I.mem), list(s.I.heap), [(r, r.freed) for r in s.I.heap], dict(s.I.gmp), dict(s.I.globals), set(s.I.global_writes))
 
     def restore(s, snap):
-        mem, heap, freed, gmp = snap
+        mem, heap, freed, gmp, globs, gw = snap
         s.I.mem = dict(mem)
+        s.I.globals = dict(globs)           # a global first touched after the snapshot is re-initialised when touched again
+        s.I.global_writes = set(gw)
         s.I.heap = list(heap)
         for r, f in freed:
             r.freed = f
